@@ -643,6 +643,20 @@ pub fn check(case: &Case, st: &mut Stats) -> CheckResult {
   Ok(())
 }
 
+fn stage_opts() -> SrcOpts {
+  let mut opts = SrcOpts::all_langs().with_errors();
+  opts.synth_weight = 4;
+  opts.max_muts = 2;
+  opts
+}
+
+/// the same stage, driven by bytes (coverage-guided tier)
+pub fn erased() -> crate::fuzz::Erased {
+  let corpus: &'static Corpus = Box::leak(Box::new(Corpus::load()));
+  let opts: &'static SrcOpts = Box::leak(Box::new(stage_opts()));
+  crate::fuzz::Erased::generic("C03", "align", move || strategy(opts), move |c, st| interpret(corpus, opts, c, st), check)
+}
+
 pub fn run(cfg: &RunCfg) -> i32 {
   let mut report = Report::new(
     cfg,
@@ -656,13 +670,12 @@ pub fn run(cfg: &RunCfg) -> i32 {
   }
   let corpus = Corpus::load();
   crate::replay_known::<Case>(&mut report, &known, check);
-  let mut opts = SrcOpts::all_langs().with_errors();
-  opts.synth_weight = 4;
-  opts.max_muts = 2;
+  let opts = stage_opts();
   let total = cfg.budget(30_000, 600_000);
   let o = drive(cfg, "align", total, &known, || strategy(&opts), |c, st| interpret(&corpus, &opts, c, st), check);
   report.absorb("align", o);
   report.floor("near_miss_root_kind_agrees", 0.06, "evaluations");
   report.floor("near_miss_split_verdict", 0.10, "near_miss_accepted_somewhere");
+  crate::fuzz::stage(cfg, &mut report, &known, 30000);
   report.finish()
 }
